@@ -24,6 +24,7 @@ def run(chk):
     from .. import heapuse
     heapuse.rule_free_const_param(chk, prog, "C08.R5")
     heapuse.rule_dangling_fields(chk, prog, "C08.R6")
+    heapuse.rule_double_release(chk, prog, "C08.R7")
     with chk.shared():
         # R4 failure atomicity of the string set operation (shared with C11): a failed set must not have freed or written anything
         from . import c11
